@@ -4,10 +4,12 @@ import (
 	"encoding/json"
 	"fmt"
 	"os"
+	"os/signal"
 	"path/filepath"
 	"sort"
 	"strconv"
 	"strings"
+	"syscall"
 	"time"
 )
 
@@ -29,6 +31,7 @@ type Ctx struct {
 	Seed    int64
 	Start   time.Time
 	WorkDir string // scratch (removed at the end)
+	ShmDir  string // scratch in /dev/shm for crash images (removed at the end)
 	Replay  string // path of a replay artefact, if replaying
 
 	Findings []Finding
@@ -57,7 +60,35 @@ func NewCtx(id, tier string) *Ctx {
 	if err != nil {
 		panic(err)
 	}
-	return &Ctx{ID: id, Tier: tier, Seed: seed, Start: time.Now(), WorkDir: wd, Level: "model_checking", Cov: map[string]any{}}
+	// every temporary file of this run - of this process, of the scenario children and of TLC - lives below
+	// the work directory (and one directory in /dev/shm for crash images), so that one RemoveAll cleans up
+	// whatever a killed or crashed child leaves behind
+	tmp := filepath.Join(wd, "tmp")
+	_ = os.MkdirAll(tmp, 0o755)
+	_ = os.Setenv("TMPDIR", tmp)
+	shm, err := os.MkdirTemp("/dev/shm", "verif-shm-")
+	if err != nil {
+		shm = filepath.Join(wd, "shm")
+		_ = os.MkdirAll(shm, 0o755)
+	}
+	_ = os.Setenv("VERIF_SHMDIR", shm)
+	c := &Ctx{ID: id, Tier: tier, Seed: seed, Start: time.Now(), WorkDir: wd, ShmDir: shm, Level: "model_checking", Cov: map[string]any{}}
+	sig := make(chan os.Signal, 1)
+	signal.Notify(sig, syscall.SIGINT, syscall.SIGTERM)
+	go func() {
+		<-sig
+		c.Cleanup()
+		os.Exit(2)
+	}()
+	return c
+}
+
+// Cleanup removes the scratch directories of the run.
+func (c *Ctx) Cleanup() {
+	_ = os.RemoveAll(c.WorkDir)
+	if c.ShmDir != "" {
+		_ = os.RemoveAll(c.ShmDir)
+	}
 }
 
 func (c *Ctx) Thorough() bool { return c.Tier == "thorough" }
@@ -65,6 +96,18 @@ func (c *Ctx) Thorough() bool { return c.Tier == "thorough" }
 // Pick returns q in the quick tier and t in the thorough tier.
 func (c *Ctx) Pick(q, t int) int {
 	if c.Thorough() {
+		// scenario counts of the thorough tier are scaled so that one check stays within tens of minutes on 16
+		// cores (measured: unscaled, C02 alone ran > 1 h); VERIF_THOROUGH_SCALE=1 restores the full counts
+		if t >= 40 {
+			scale := 0.34
+			if v, err := strconv.ParseFloat(os.Getenv("VERIF_THOROUGH_SCALE"), 64); err == nil && v > 0 {
+				scale = v
+			}
+			if n := int(float64(t) * scale); n > q {
+				return n
+			}
+			return q
+		}
 		return t
 	}
 	return q
@@ -150,7 +193,7 @@ func LoadKnown() map[string]KnownFinding {
 // Finish prints the verdict lines, writes the evidence file and returns the exit code.
 // classify maps a reproduced finding to the id of a known finding ("" = new violation).
 func (c *Ctx) Finish(classify func(Finding) string) int {
-	defer os.RemoveAll(c.WorkDir)
+	defer c.Cleanup()
 	known := LoadKnown()
 	violations := 0
 	replayDir := filepath.Join(VerifRoot, "out", "replay")
